@@ -89,6 +89,18 @@ let run_case opname t =
         | SOk a -> join [ codes_s (s_to_string a zero one); codes_s (s_to_string a zero chr1) ]
         | _ -> "na" in
       (m, p)
+  | "ct" ->
+      (* the two fixed scripts the harness evaluates in a constant expression *)
+      let kind = next_str t in
+      let w = next_nat t in
+      let bits = next_nat t in
+      let m1 = ct_check bits (run_m bits w (init_m bits w) (ct_ops bits)) in
+      let s1 = ct_check bits (s_run bits (s_init bits) (ct_ops bits)) in
+      if kind = "bs" then
+        let m2 = ct_str_check bits (run_m bits w (init_m bits w) (ct_str_ops bits)) in
+        let s2 = ct_str_check bits (s_run bits (s_init bits) (ct_str_ops bits)) in
+        (join [ b2s m1; b2s m2 ], join [ b2s s1; b2s s2 ])
+      else (b2s m1, b2s s1)
   | "popfb" ->
       (* detail::popcount_fallback<UInt> (the constant-evaluation path of popcount) and popcount *)
       let w = next_nat t in
